@@ -11,7 +11,7 @@ MODELS = {
     "C03": ("Model/Hap.v; Proofs/HapProofs.v", "stack"), "C04": ("Model/Hap.v, Model/Spec.v, Model/Framing.v, Model/Srp.v; Proofs/HapProofs.v, SpecProofs.v, FramingProofs.v, SrpProofs.v (and SrpFast.v for the evaluation of the SRP model)", "stack + srp + config"),
     "C05": ("Model/Framing.v, Base/ChaCha20Poly1305 + HKDF-SHA-512; Proofs/FramingProofs.v, Base/ChaChaPolyProofs.v", "frame"),
     "C06": ("Model/Framing.v; Proofs/FramingProofs.v", "frame"), "C07": ("Model/ConnRead.v; Proofs/ConnReadProofs.v", "conn"),
-    "C08": ("Model/ConnWrite.v; Proofs/ConnWriteProofs.v", "connw"), "C09": ("Model/Hap.v (do_get / do_put), Model/Charac.v; Proofs/HapProofs.v", "stack"),
+    "C08": ("Model/ConnWrite.v; Proofs/ConnWriteProofs.v", "connw"), "C09": ("Model/Hap.v (do_get / do_put), Model/Charac.v, Model/Respond.v; Proofs/HapProofs.v, RespondProofs.v", "stack + connw (resp)"),
     "C10": ("Model/Hap.v (notify, subscriptions); Proofs/HapProofs.v", "stack"), "C11": ("Model/Charac.v, Model/Hap.v; Proofs/CharacProofs.v, HapProofs.v", "charac + stack"),
     "C12": ("Model/Charac.v; Proofs/CharacProofs.v", "charac"), "C13": ("Model/Hap.v, Model/Charac.v; Proofs/HapProofs.v, CharacProofs.v", "stack"),
     "C14": ("Model/Ids.v, Gen/CatalogGen.v; Proofs/IdsProofs.v", "ids"), "C15": ("Model/Catalog.v, Gen/CatalogGen.v, Gen/MetadataGen.v; Proofs/CatalogProofs.v", "catalog"),
